@@ -168,15 +168,19 @@ Serialized(calls, perr) ==
 (* returned Ok; perr = position at which serialisation stopped (0 unknown); errD = 1-based position of the    *)
 (* first call the direct Assembler refused (0 = none).  Both runs stop at their first failure; the position    *)
 (* of that failure and everything produced before it must coincide.  Error codes are not compared.           *)
-Finalize(order, dB, dD, finOk, perr, errD) ==
+(* `extra` = number of calls the emitter itself appends after the last node when it finalizes (0 for a Builder; *)
+(* 1 for a Compiler with an open global constant pool, see CompilerPools.tla).                                    *)
+FinalizeX(order, dB, dD, finOk, perr, errD, extra) ==
   /\ done = 0
   /\ order = seq
   /\ dB = dD
   /\ \/ finOk /\ rej = 0 /\ errD = 0
-     \/ finOk /\ rej = 1 /\ errD = Len(seq) + 1
-     \/ ~finOk /\ errD \in 1 .. Len(seq) /\ (perr > 0 => perr = errD)
+     \/ finOk /\ rej = 1 /\ errD = Len(seq) + extra + 1
+     \/ ~finOk /\ errD \in 1 .. Len(seq) + extra /\ (perr > 0 => perr = errD)
   /\ done' = 1
   /\ UNCHANGED <<seq, cur, callOf, rej>>
+
+Finalize(order, dB, dD, finOk, perr, errD) == FinalizeX(order, dB, dD, finOk, perr, errD, 0)
 
 (* ---- sanity of the abstract state ---- *)
 CInv == /\ Distinct(seq)
